@@ -590,6 +590,15 @@ func (c *Client) verifyLightBlock(ctx context.Context, newLightBlock *types.Ligh
 			return fmt.Errorf("can't get first light block: %w", err)
 		}
 		err = c.backwards(ctx, firstBlock.Header, newLightBlock.Header)
+		if err == nil {
+			// The hash chain binds the header only. The light block is stored and
+			// served with its validator set and commit, so these must belong to the
+			// header: a +2/3 commit of the header's own validator set.
+			if err = newLightBlock.ValidateBasic(c.chainID); err == nil {
+				err = newLightBlock.ValidatorSet.VerifyCommitLight(c.chainID, newLightBlock.Commit.BlockID,
+					newLightBlock.Height, newLightBlock.Commit)
+			}
+		}
 
 	// Verifying between first and last trusted light block
 	default:
